@@ -1,0 +1,10 @@
+//go:build !verif
+
+// Package verifhook marks the places where gleece iterates a Go map (or another unordered source) in a way that
+// can reach its output. Without the `verif` build tag every hook is the identity function.
+package verifhook
+
+// Permute returns s unchanged.
+func Permute[T any](site string, s []T, key func(T) string) []T {
+	return s
+}
